@@ -140,9 +140,10 @@ def xBytes (ds : List PointDelta) : List Nat := ds.flatMap (fun d => d.dx.bytes)
 def yBytes (ds : List PointDelta) : List Nat := ds.flatMap (fun d => d.dy.bytes)
 
 /-- `impl FontWrite for SimpleGlyph` (`none` = panic: the two `assert!`s, end-point underflow,
-delta overflow). A glyph without contours writes nothing. -/
+delta overflow). A glyph without contours writes nothing.  (Since `fix:` 60d64c5 the instruction
+assertion is `len <= u16::MAX`, the limit `validate` uses.) -/
 def writeSimple (g : SimpleGlyph) : Option (List Nat) :=
-  if ¬ (g.contours.length < 32767) ∨ ¬ (g.instructions.length < 65535) then none
+  if ¬ (g.contours.length < 32767) ∨ ¬ (g.instructions.length < 65536) then none
   else if g.contours.length = 0 then some []
   else
     match endPts 0 g.contours with
@@ -735,5 +736,49 @@ def buildGlyfLoca : List Glyph → (glyf : List Nat) → (loca : List Nat) → O
     | _ => none
 
 def build (gs : List Glyph) : Option (List Nat × List Nat) := buildGlyfLoca gs [] [0]
+
+/-! ### builder histories with failures in the middle
+
+`add_glyph` is `glyph.validate()?; glyph.write_into(&mut self.glyph_writer); raw_loca.push(len)`:
+a glyph that fails validation returns `Err` BEFORE anything is written, so the builder is exactly as
+it was and the caller may go on adding glyphs (the type's doc example handles the error per glyph).
+A panic inside `write_into` (glyph passed validation but hits an assertion / checked arithmetic)
+unwinds out of `add_glyph` with a partly written glyph: the history ends there (`none`). -/
+
+/-- outcome of one `add_glyph` call as the caller sees it -/
+inductive AddOutcome
+  | ok | err | trap
+deriving DecidableEq, Repr
+
+def addOutcome (g : Glyph) : AddOutcome :=
+  match writeGlyph g with
+  | .ok _ => .ok
+  | .invalid => .err
+  | .trap => .trap
+
+/-- the builder state after a history of `add_glyph` calls whose `Err`s were ignored by the caller -/
+def buildHistFrom : List Glyph → (glyf : List Nat) → (loca : List Nat) → Option (List Nat × List Nat)
+  | [], glyf, loca => some (glyf, loca)
+  | g :: gs, glyf, loca =>
+    match writeGlyph g with
+    | .ok b =>
+      let glyf' := glyf ++ b
+      buildHistFrom gs glyf' (loca ++ [glyf'.length % 4294967296])
+    | .invalid => buildHistFrom gs glyf loca
+    | .trap => none
+
+def buildHist (gs : List Glyph) : Option (List Nat × List Nat) := buildHistFrom gs [] [0]
+
+/-- the glyphs of a history that were accepted (`add_glyph` returned `Ok`), in order: glyph id `i` of
+the built tables is the `i`-th of these -/
+def accepted (gs : List Glyph) : List Glyph := gs.filter (fun g => addOutcome g = .ok)
+
+/-- what the caller observes call by call, up to and including the first panic -/
+def histOutcomes : List Glyph → List AddOutcome
+  | [] => []
+  | g :: gs =>
+    match addOutcome g with
+    | .trap => [.trap]
+    | o => o :: histOutcomes gs
 
 end FontVerif.Glyf
